@@ -42,6 +42,9 @@ struct ReplaySpec {
     history: Option<Vec<usize>>,
     conc: Option<ConcSpec>,
     faults: Option<(u8, u8, u64)>,
+    /// transient read error: (position in the history, n-th read call of that query)
+    #[serde(default)]
+    eio: Option<(usize, u64)>,
 }
 
 fn explore(source: PipeSpec, only: Option<ReplaySpec>, index: u64, tier: Tier, want_sample: bool) -> RunReport {
@@ -55,15 +58,16 @@ fn explore(source: PipeSpec, only: Option<ReplaySpec>, index: u64, tier: Tier, w
     }
     let bytes = Arc::new(run.world.get_file(pipeline::ARCHIVE_PATH).unwrap_or_default());
     let arch_id = seed::fnv64(&bytes);
-    let mk = |class: &str, detail: String, history: Option<Vec<usize>>, conc: Option<ConcSpec>, faults: Option<(u8, u8, u64)>| Violation {
+    let mk_eio = |class: &str, detail: String, history: Option<Vec<usize>>, conc: Option<ConcSpec>, faults: Option<(u8, u8, u64)>, eio: Option<(usize, u64)>| Violation {
         property: "C08".into(),
         class: class.into(),
         detail,
-        spec: serde_json::to_value(&ReplaySpec { source: source.clone(), history, conc, faults }).unwrap(),
+        spec: serde_json::to_value(&ReplaySpec { source: source.clone(), history, conc, faults, eio }).unwrap(),
         engine: "reader-sim".into(),
         index,
         event_log_digest: arch_id,
     };
+    let mk = |class: &str, detail: String, history: Option<Vec<usize>>, conc: Option<ConcSpec>, faults: Option<(u8, u8, u64)>| mk_eio(class, detail, history, conc, faults, None);
     let qs = match reader::alphabet(&bytes) {
         Ok(q) => q,
         Err(e) => {
@@ -104,9 +108,33 @@ fn explore(source: PipeSpec, only: Option<ReplaySpec>, index: u64, tier: Tier, w
             }
         }
     };
+    // histories in which one query meets a transient read error (EIO once, then healthy again)
+    let mut judge_eio = |h: &[usize], eio: (usize, u64), r: &mut RunReport, first: &mut Option<Violation>| {
+        let res = reader::run_history_eio(&bytes, &qs, &fresh, h, None, Some(eio));
+        r.evaluations += 1;
+        let mut d = arch_id ^ 0xE10 ^ (eio.0 as u64) << 40 ^ eio.1 << 48;
+        for &x in h {
+            d = seed::fnv_mix(d, x as u64 + 1);
+        }
+        r.extra_digests.push(d);
+        r.count("transient_read_error_histories", 1);
+        if res.eio_fired {
+            r.count("fault.eio_read_call", 1);
+        }
+        if let Some((_, class, detail)) = res.bad {
+            let class = if class == "history-dependent-answer" { "answer-after-read-error".to_string() } else { class };
+            r.count(&format!("bad.{class}"), 1);
+            if first.is_none() {
+                *first = Some(mk_eio(&class, format!("[read call {} of query #{} failed once with EIO] {detail}", eio.1, eio.0), Some(h.to_vec()), None, None, Some(eio)));
+            }
+        }
+    };
     if let Some(o) = &only {
         if let Some(h) = &o.history {
-            judge_hist(h, o.faults, &mut r, &mut first);
+            match o.eio {
+                Some(e) => judge_eio(h, e, &mut r, &mut first),
+                None => judge_hist(h, o.faults, &mut r, &mut first),
+            }
         }
     } else {
         // all histories of length 1..=L
@@ -141,6 +169,22 @@ fn explore(source: PipeSpec, only: Option<ReplaySpec>, index: u64, tier: Tier, w
             let h: Vec<usize> = (0..len).map(|_| rr.below(n as u64) as usize).collect();
             let faults = if i % 2 == 0 { Some((40u8, 10u8, rr.next())) } else { None };
             judge_hist(&h, faults, &mut r, &mut first);
+        }
+        // every pair (a, b): a meets a transient read error at its n-th read call, b follows on the
+        // same handle; plus sampled longer histories with the error at a random position
+        let mut re = Rng::new(arch_id ^ 0xE10);
+        for a in 0..n {
+            for b in 0..n {
+                let nth = *re.pick(&[0u64, 0, 1, 1, 2, 3, 5, 8]);
+                judge_eio(&[a, b], (0, nth), &mut r, &mut first);
+            }
+        }
+        for _ in 0..if tier == Tier::Quick { 300 } else { 6000 } {
+            let len = re.range(3, 6) as usize;
+            let h: Vec<usize> = (0..len).map(|_| re.below(n as u64) as usize).collect();
+            let at = re.below(len as u64 - 1) as usize;
+            let nth = re.below(12);
+            judge_eio(&h, (at, nth), &mut r, &mut first);
         }
     }
     // concurrent cloned readers
@@ -235,10 +279,15 @@ impl Prop for C08 {
             for i in 0..h.len() {
                 let mut h2 = h.clone();
                 h2.remove(i);
-                out.push(ReplaySpec { source: rs.source.clone(), history: Some(h2), conc: None, faults: rs.faults });
+                // removing a query in front of the faulted one shifts its position
+                let eio = rs.eio.and_then(|(at, nth)| if i < at { Some((at - 1, nth)) } else if i == at { None } else { Some((at, nth)) });
+                if rs.eio.is_some() && eio.is_none() {
+                    continue;
+                }
+                out.push(ReplaySpec { source: rs.source.clone(), history: Some(h2), conc: None, faults: rs.faults, eio });
             }
             if rs.faults.is_some() {
-                out.push(ReplaySpec { source: rs.source.clone(), history: Some(h.clone()), conc: None, faults: None });
+                out.push(ReplaySpec { source: rs.source.clone(), history: Some(h.clone()), conc: None, faults: None, eio: rs.eio });
             }
         }
         out.into_iter().map(|s| serde_json::to_value(&s).unwrap()).collect()
